@@ -11,7 +11,7 @@ EXPLANATION = ('Structural necessary conditions of C01: (tako) terminal announce
                'successful task result and a time-limit expiry stops the task and yields Failed; cancel_job is atomic (no await).')
 NOT_DECIDED = ['that the composition of both layers over all message orders yields exactly one announcement (needs the reachable protocol state space)',
                'event order in the journal beyond single-writer (C10 R10.5)']
-RELATED = {'C08': ['R08.2'], 'C06': ['R06.1'], 'C13': ['R13.2'], 'C02': ['R02.9', 'R02.8']}
+RELATED = {'C08': ['R08.2'], 'C06': ['R06.1'], 'C13': ['R13.2'], 'C02': ['R02.9', 'R02.8', 'R02.7']}
 ASSUMPTIONS = ['per-connection FIFO; single-threaded LocalSet executor (interleaving only at await)']
 
 OPTION = 'core::option::Option'
